@@ -63,3 +63,11 @@ Definition C07_gamma_at_least_p_statement : Prop :=
 Example C07_nonvacuous :
   count_diffs [1; 2; 4; 8; 0]%Z [1; 2; 8; 5; 1]%Z [true; true; true; true; true] None false = (2 # 1, 4 # 1)%Q.
 Proof. vm_compute. reflexivity. Qed.
+
+(* the "internal gaps only" counter treats both rows alike (running accumulators of the two
+   trailing gap runs included): the raw and p-distance matrices of that mode are symmetric *)
+Theorem C07_internal_gap_counter_symmetric : forall s1 s2 ws rm,
+  (fst (count_diffs_internal s1 s2 ws rm) == fst (count_diffs_internal s2 s1 ws rm))%Q /\
+  (snd (count_diffs_internal s1 s2 ws rm) == snd (count_diffs_internal s2 s1 ws rm))%Q.
+Proof. exact count_diffs_internal_sym. Qed.
+Print Assumptions C07_internal_gap_counter_symmetric.
